@@ -373,6 +373,32 @@ def analyse(build):
     uses.sort(key=lambda u: (u["obj"], u["objmember"], u["file"], u["line"], u["col"], u["kind"], u["via"]))
     return objs, uses, asm_refs, len(jobs)
 
+DOCUMENTED = {"__gmp_allocate_func": ["__gmp_set_memory_functions"], "__gmp_reallocate_func": ["__gmp_set_memory_functions"], "__gmp_free_func": ["__gmp_set_memory_functions"],
+              "__gmp_default_fp_limb_precision": ["__gmpf_set_default_prec"], "__gmp_errno": [], "__gmp_junk": ["__gmp_exception"],
+              "__gmp_rands": ["__gmpf_random2", "__gmpn_random", "__gmpn_random2"], "__gmp_rands_initialized": ["__gmpf_random2", "__gmpn_random", "__gmpn_random2"]}
+
+def violations(build, objs_list, uses):
+    """what makes escaped_statics_harmless / documented_cells_writers fail on this tree, in words (mirrors the Lean statements)"""
+    objs, refs, initaddrs, anon = gen_globals.scan2(build)
+    out = []; stores = {}
+    for (mem, fn, key, kind) in refs:
+        if kind == "store": stores.setdefault(key, set()).add(fn)
+    for key, o in sorted(objs.items(), key=lambda x: x[0][1]):
+        if key[1] in DOCUMENTED or o["sect"].startswith(".data.rel.ro"): continue
+        b = base_name(key[1])
+        bad = [u for u in uses if u["obj"] == b and u["objmember"] == key[0] and u["kind"] not in READONLY_KINDS]
+        if key in stores or bad:
+            out.append("undocumented writable static %s (%s, %s, %d bytes, %s symbol): %s%s" % (
+                key[1], key[0], o["sect"], o["size"], "local" if o["local"] else "global",
+                ("store instructions in " + ", ".join(sorted(stores[key])) + "; ") if key in stores else "",
+                "; ".join("%s at %s:%d in %s%s" % (u["kind"], u["file"], u["line"], u["func"] or "<static initialiser>", (" [" + u["via"] + "]") if u["via"] else "") for u in bad[:6])))
+    for c, ws in DOCUMENTED.items():
+        binw = {fn for (mem, fn, key, kind) in refs if key[1] == c and kind in ("store", "addr")}
+        srcw = {u["func"] for u in uses if u["obj"] == c and u["kind"] not in READONLY_KINDS}
+        if binw != set(ws) or srcw != set(ws):
+            out.append("documented cell %s: written by %s (binary) / %s (source); the documented setters are %s" % (c, sorted(binw), sorted(srcw), ws))
+    return out
+
 def lean_str(s): return '"' + s.replace("\\", "\\\\").replace('"', '\\"') + '"'
 
 def report(objs, uses):
@@ -391,6 +417,9 @@ def gen_globaluses(ctx):
         objs, uses, asm_refs, ntu = analyse(build)
         objs_l = sorted([k[1], k[0]] for k in objs)
         json.dump([objs_l, uses, asm_refs, ntu], open(cache, "w"))
+    viol = violations(build, objs_l, uses)
+    ctx.globaluses_violations = viol
+    for v in viol: print("DETAIL: C15 static scan: " + v[:900])
     ctx.globaluses_report = dict(translation_units=ntu, uses=len(uses), per_object=report(None, uses), asm_members_with_relro_tables=asm_refs)
     rows = ['  { obj := %s, objFile := %s, file := %s, func := %s, line := %d, kind := %s, via := %s }' % (
         lean_str(u["obj"]), lean_str(u["objmember"]), lean_str(u["file"]), lean_str(u["func"]), u["line"], lean_str(u["kind"]), lean_str(u["via"])) for u in uses]
